@@ -25,6 +25,7 @@ META = dict(
 META["text"] += ' (R5, N) no estimator, bet or test obtains a parameter as `value or default`, which would replace a configured 0 (a legitimate assumed error rate, shrinkage weight or padding) by the default.'
 META["text"] += " (R6, N) NonnegMean's constructor stores u, N, t, random_order from its parameters and installs every keyword argument as an attribute (where the estimators and bets read their tuning parameters)."
 META["text"] += ' (R7, P) formula identities: fixed_alternative_mean == (N eta - S_{j-1})/(N - j + 1) (eta with replacement), optimal_comparison == its documented closed form; a clamp around the formula is accepted. They keep changes of these two estimators from hiding behind the open findings K2a/K2b.'
+META["text"] += ' R6 also: the default initial bet is the documented constant. (R8 = factor identity) the ranges speak about eta_j and lambda_j as they enter the published factor, in the finite and the infinite regime alike.'
 
 REL = nnm.REL
 
@@ -203,6 +204,37 @@ def run(chk):
                    node=fd, returned=sp.sstr(leaf)[:300])
             n += 2
     chk.need("C13", n, 10, "range obligations")
+    # R6 also: the default initial bet.  fixed_bet has no clamp, so its range rests on the value of lam alone: the documented
+    # 0 <= lam <= 1/u holds for the default only if the default is a number no larger than 1/(default u); it is supplied at more
+    # than one place and they must agree.
+    import ast as _ast
+    init = idx.func(nnm.REL, f"{nnm.CLS}.__init__")
+    sites = {}
+    for fq in [f"{nnm.CLS}.__init__"] + [f"{nnm.CLS}.{b}" for b in reg["bet"]]:
+        fdx = idx.func(nnm.REL, fq)
+        for c_ in _ast.walk(fdx):
+            if isinstance(c_, _ast.Call) and ((norm(c_.func) == "kwargs.get" and c_.args and norm(c_.args[0]) in ("'lam'", '"lam"')) or
+                                              (norm(c_.func) == "getattr" and len(c_.args) == 3 and norm(c_.args[1]) in ("'lam'", '"lam"'))):
+                sites[fq] = c_.args[-1]
+    vals = {}
+    for fq, d_ in sites.items():
+        try:
+            vals[fq] = symx.Tx().expr(d_)
+        except symx.Unsupported:
+            vals[fq] = None
+    u_def = next((norm(d_) for a_, d_ in zip([a.arg for a in init.args.args][-len(init.args.defaults):], init.args.defaults) if a_ == "u"), None)
+    nums = [v_.e for v_ in vals.values() if isinstance(v_, symx.E) and v_.e.is_Number]
+    okd = len(nums) == len(sites) >= 2 and len(set(nums)) == 1 and u_def is not None \
+        and 0 <= nums[0] and nums[0] * sp.Rational(str(u_def)) <= 1
+    chk.ob("C13.R6", W("__init__"), "default-initial-bet", bool(okd),
+           "the default initial bet lam is one and the same number at every place that supplies it, within [0, 1/u] for the default u "
+           "(not an expression in t or u, which the null mean leaves behind as the sample is drawn)", node=init, strength="N",
+           defaults={k: norm(v) for k, v in sites.items()}, default_u=u_def)
+    # R8: the ranges above speak about eta_j and lambda_j *as they enter the factor* 1 + lambda_j (x_j - mu_j) resp. the ALPHA factor:
+    # the factor identity (C12.R1) ties the test statistic to them
+    from .. import nnm_rules as _NR
+    for _tf in _NR.facts(idx).values():
+        _NR.rule_factor_and_composition(chk, _tf, {"identity": "C13.R8"})
     # R5: how parameters reach the formulas.  The ranges above are established for the parameter values the caller configured;
     # `value or default` replaces a configured 0 by the default (0 is a legitimate -- for f, g and c_grapa_grow even the default --
     # value: an assumed two-vote error rate of 0, no shrinkage weight, no padding), and the formulas are then evaluated at a
